@@ -55,6 +55,15 @@ ARemove(d, u, r) ==
 ARefine(dens) ==
   /\ "refine" \in Acts
   /\ Step([a |-> "refine", dens |-> dens], Refine(obj, dens))
+\* helpers.knot_refinement with an explicit knot_list and add_knot_list (curves): the union is sorted, made
+\* unique, bisected `dens` times, and every resulting interior value is raised to multiplicity = degree
+ARefineHelper(kl, add, dens) ==
+  /\ "refine_helper" \in Acts /\ PDim(obj) = 1
+  \* "nothing to insert" is refused by the helper (GeomdlException): not an action of the machine
+  /\ \E x \in RangeOf(Bisect(SortedRats(RangeOf(kl) \cup RangeOf(add)), dens)) :
+        Mult(x, obj.kv[1]) < obj.deg[1] /\ RLt(DomLo(obj.deg[1], obj.kv[1]), x) /\ RLt(x, DomHi(obj.deg[1], obj.kv[1]))
+  /\ Step([a |-> "refine_helper", kl |-> kl, add |-> add, dens |-> dens],
+          RefineFrom(obj, 1, Bisect(SortedRats(RangeOf(kl) \cup RangeOf(add)), dens), 1))
 
 Emit == hist # <<>> => PrintT("CASE " \o ToJson([sh0 |-> sh0, hist |-> hist, obj |-> obj]))
 =============================================================================
